@@ -308,3 +308,26 @@ add("s-save-point-guard-clause", S, ["C03", "C04", "C08", "C11", "C17"], "dfols/
 add("save-point-guard-clause-nan-blind", F, ["C08", "C17"], "dfols/model.py",
     "        if self.objsave is None or np.isnan(self.objsave) or obj <= self.objsave:  # never keep a NaN value over a finite one\n            self.xsave = xabs\n            self.rsave = rvec.copy()\n            self.objsave = obj\n            self.jacsave = self.model_jac.copy() if self.model_jac is not None else None\n            self.nsamples_save = nsamples\n            self.eval_num_save = eval_num\n            self.jacsave_eval_nums = self.model_jac_eval_nums.copy() if self.model_jac_eval_nums is not None else None\n            return True\n        else:\n            return False  # this value is worse than what we have already - didn't save",
     "        if self.objsave is not None and obj > self.objsave:\n            return False\n        self.xsave = xabs\n        self.rsave = rvec.copy()\n        self.objsave = obj\n        self.jacsave = self.model_jac.copy() if self.model_jac is not None else None\n        self.nsamples_save = nsamples\n        self.eval_num_save = eval_num\n        self.jacsave_eval_nums = self.model_jac_eval_nums.copy() if self.model_jac_eval_nums is not None else None\n        return True", "slot")
+
+# ---- rules that the coverage report (tools/rule_coverage.py) had never seen firing
+add_multi("none-default-star-expanded", F, ["C06"], [
+    ("dfols/trust_region.py", "L_h, prox_uh, argsh=(), argsprox=(), func_tol=1e-3", "L_h, prox_uh, argsh=(), argsprox=None, func_tol=1e-3"),
+    ("dfols/controller.py", "            d, gnew, crvmin = ctrsbox_sfista(self.model.xopt(abs_coordinates=True), gopt, np.zeros(H.shape), [proj], 1,\n                                self.h, self.lh, self.prox_uh, argsh = self.argsh, argsprox=self.argsprox, func_tol=func_tol, ",
+     "            d, gnew, crvmin = ctrsbox_sfista(self.model.xopt(abs_coordinates=True), gopt, np.zeros(H.shape), [proj], 1,\n                                self.h, self.lh, self.prox_uh, argsh = self.argsh, func_tol=func_tol, "),
+], "C06-3")
+add("s-none-default-never-taken", S, ["C06"], "dfols/trust_region.py", "L_h, prox_uh, argsh=(), argsprox=(), func_tol=1e-3", "L_h, prox_uh, argsh=(), argsprox=None, func_tol=1e-3")
+add("misspelt-logger-in-rare-branch", F, ["C07"], "dfols/controller.py", "            module_logger.info(\"Soft restart [currently, f = %g after %g function evals]\" % (self.model.objopt(), self.nf))",
+    "            modul_logger.info(\"Soft restart [currently, f = %g after %g function evals]\" % (self.model.objopt(), self.nf))", "C07-1b")
+add("geometry-step-absolute-box", F, ["C13"], "dfols/controller.py", "xnew = trsbox_geometry(self.model.xopt(), c, g, np.minimum(self.model.sl, 0.0), np.maximum(self.model.su, 0.0), adelt)",
+    "xnew = trsbox_geometry(self.model.xopt(), c, g, np.minimum(self.model.xl_abs, 0.0), np.maximum(self.model.xu_abs, 0.0), adelt)", "C13-3")
+add("convex-geometry-step-relative-centre", F, ["C13"], "dfols/controller.py", "step = ctrsbox_geometry(self.model.xopt(abs_coordinates=True), c, g, self.model.projections, adelt,",
+    "step = ctrsbox_geometry(self.model.xopt(), c, g, self.model.projections, adelt,", "C13-3")
+add("generator-box-not-recentred", F, ["C14"], "dfols/controller.py", "        dirn = random_directions_within_bounds(1, step_length, self.model.sl - xopt, self.model.su - xopt)[0, :]",
+    "        dirn = random_directions_within_bounds(1, step_length, self.model.sl, self.model.su)[0, :]", "C14-3")
+add("pbox-forgets-upper", F, ["C15"], "dfols/util.py", "    return np.minimum(np.maximum(x,l), u)", "    return np.maximum(x,l)", "C15-2b")
+add("s-pbox-other-nesting", S, ["C15", "C09", "C01"], "dfols/util.py", "    return np.minimum(np.maximum(x,l), u)", "    return np.maximum(np.minimum(x,u), l)")
+
+add("success-finiteness-guard-removed", F, ["C10"], "dfols/solver.py", "    if exit_info.flag == EXIT_SUCCESS and not np.isfinite(objmin):\n        exit_info = ExitInformation(EXIT_EVAL_ERROR, \"Objective value at the returned point is not finite\")\n", "", "C10-6")
+add("success-finiteness-guard-tests-other-value", F, ["C10"], "dfols/solver.py", "    if exit_info.flag == EXIT_SUCCESS and not np.isfinite(objmin):", "    if exit_info.flag == EXIT_SUCCESS and not np.isfinite(nf):", "C10-6")
+add("s-success-finiteness-guard-nested", S, ["C10", "C07"], "dfols/solver.py", "    if exit_info.flag == EXIT_SUCCESS and not np.isfinite(objmin):\n        exit_info = ExitInformation(EXIT_EVAL_ERROR, \"Objective value at the returned point is not finite\")\n",
+    "    if exit_info.flag == EXIT_SUCCESS:\n        if not np.isfinite(objmin):\n            exit_info = ExitInformation(EXIT_EVAL_ERROR, \"Objective value at the returned point is not finite\")\n")
